@@ -3,7 +3,8 @@
 Implementation side: the real binary in vi mode (vi -v); keys = motion program, then a marker
 inserted at the cursor (`i@<ESC>`), `:w! out`, `:q!`.  The marker's place in the written file
 reveals (row, character offset); the rest of the file must be the original text.
-Correspondence: the extracted Coq model (coq/MotDefs.v via ocaml/drv_vi.ml) on the same programs.
+Correspondence: the extracted Coq model (coq/MotDefs.v + coq/MotCountDefs.v via ocaml/drv_mot.ml) on the same programs; counts of the
+streams `bigcount` / `count-edge` go to the model as the typed digits (its own vi_prefix reads them).
 Oracle: `Ref` below -- an independent Python reference of the motion semantics over code points
 and display columns (flat character stream with line terminators, character classes, column
 tables), plus the invariants of the property (cursor on an existing character, text unchanged).
@@ -11,7 +12,8 @@ Streams: corpus; fixed small buffers x every position x every key; random progra
 walks, f/t chains, bracket-pair texts); `long-line`: lines of 253..400 characters (the line limit xlim = 256
 of ren_position() counts the terminator) with wide / multi-byte characters and tabs, N| / $ / counted l and
 j / k into and out of them; `sticky3`: remembered column != cursor column, then a motion that succeeds without
-moving (chosen with the reference), then j / k.
+moving (chosen with the reference), then j / k; `bigcount`: counts of 9 / 10 / 11 / 12 / 20 digits (every tenth digit) in front
+of every motion key, `count-edge`: counts next to the distance to the edge of the line / buffer / window.
 """
 import json, unicodedata
 import vlib
@@ -309,6 +311,7 @@ class Ref:
             return self.from_flat(p)
         if key in '{}':
             for _ in range(c):
+                r0 = r
                 if key == '}':
                     while r < n and L[r] == '':
                         r += 1
@@ -320,6 +323,8 @@ class Ref:
                     while r >= 0 and L[r] != '':
                         r -= 1
                 r = max(0, min(r, n - 1))
+                if r == r0:          # one step is a function of the row alone: further steps stay here
+                    break
             return r, 0
         if key == '%':
             return self.pair(r, o)
@@ -370,15 +375,22 @@ def keys_of(prog):
     return out
 
 
-def model_req(text, rows, prog):
+KEYFORM_FROM = 1000000      # counts from here on always go to the model as typed keys (the model's own vi_prefix reads the digits)
+
+
+def model_req(text, rows, prog, keyform=False):
+    """m:<count>:<key>[:<char>] = MotDefs.Mot with the count as a number; k:<digits>:<key>[:<char>] = the keys as typed,
+    parsed by MotCountDefs.parse_motion (vi_prefix over any number of digits, vi_cnt, the key table)"""
     w = ['mot', str(rows - 1), vlib.hx(text.encode('utf-8'))]
     for c in prog:
         if c[0] == 'g':
             w.append('g:%d' % c[1])
-        elif len(c) > 3:
-            w.append('m:%d:%d:%s' % (c[1], ord(c[2]), c[3].encode('utf-8').hex()))
+            continue
+        f = 'k' if (c[1] >= KEYFORM_FROM or (keyform and c[1] > 0)) else 'm'
+        if len(c) > 3:
+            w.append('%s:%d:%d:%s' % (f, c[1], ord(c[2]), c[3].encode('utf-8').hex()))
         else:
-            w.append('m:%d:%d' % (c[1], ord(c[2])))
+            w.append('%s:%d:%d' % (f, c[1], ord(c[2])))
     return ' '.join(w)
 
 
@@ -796,6 +808,142 @@ def gen_sticky3(rng, per_state):
     return out
 
 
+# -- counts of nine and more digits, and counts at the edge of the line / buffer.  vi_prefix() reads EVERY digit of a count
+# (the value stops growing once nine digits are in: `if (n < 100000000) n = n * 10 + c - '0'`), vi_cnt() caps at 2^30, and every
+# motion clamps an overrunning count.  The reference takes the count as the number that was typed (Python integers have no
+# limit); on buffers far smaller than 10^8 lines / characters the two agree.  Stream `bigcount`: 9, 10, 11, 12 and 20 digits,
+# the tenth digit each of 0..9, leading digits 1 / 9 / any, zeros / nines / random digits behind, in front of every motion key
+# (a count in front of `0` is not possible: the 0 belongs to the count -- strings ending in 0 / 00 are part of the stream), from a
+# position inside the buffer with the remembered column set, followed by another counted motion or a plain j / k (so that a digit
+# that is executed as a command of its own shows).  `{` `}` get at most six digits: vi.c runs lbuf_paragraphbeg count times
+# without ever leaving the loop (finding candidate KF-PARA-COUNT-LOOP: 999999999} keeps the editor busy for more than a minute).
+# Stream `count-edge`: the same keys with the counts next to the distance to the edge (distance - 1, distance, distance + 1 for
+# rows, characters, columns, the window) -- beyond that distance MotCountProps.count_beyond_clamps says the landing is the same.
+BIG_KEYS = list('hljk|wbeWBE;,G+-_%HML$^ \b') + ['f', 'F', 't', 'T']
+BIG_LENGTHS = [9, 10, 11, 12, 20]
+BIG_TEXTS = [
+    'abc def ghi\njkl mno pqr\nstu vwx yz\n0123 4567 89\n',
+    'foo.bar  (a[1]) {x}\n\n  \tindentéd w中文 énd  \n\n\nlast_1 )\n',
+    'a1 b2 c3 d4 e5 f6 g7\nx\n\tab\tc((d)) éé\nああ Ａb cc dd\n\nlast line (here) a b a b a\n',
+    'if (x[i] == {1}) { y; }\n}\nelse a a a a a a\n  b b b b\nc\nd d\ne\nf f f\ng\nh\n',
+]
+
+
+def gen_digits(rng, n, tenth=None):
+    """a count of exactly n digits (first digit 1..9); the tenth digit as given"""
+    lead = rng.choice(['1', '1', '9', str(rng.range(1, 9))])
+    t = rng.below(4)
+    if t == 0:
+        body = '0' * (n - 1)
+    elif t == 1:
+        body = '9' * (n - 1)
+    else:
+        body = ''.join(str(rng.below(10)) for _ in range(n - 1))
+    d = lead + body
+    if tenth is not None and n >= 10:
+        d = d[:9] + str(tenth) + d[10:]
+    return int(d)
+
+
+def counted(rng, ls, ref, key, cnt):
+    """one motion command with the given count from the reference state ref (the find keys look for a character that occurs)"""
+    if key in 'fFtT':
+        line = ls[ref.r] if ls else ''
+        ahead = line[ref.o + 1:] if key in 'ft' else line[:ref.o]
+        ch = rng.choice(ahead) if ahead and rng.chance(5, 6) else (rng.choice(line) if line else 'q')
+        return ['m', cnt, key, ch]
+    return ['m', cnt, key]
+
+
+def start_prog(rng, ls):
+    """reach a position inside the buffer, most often away from every edge, with the remembered column = the cursor's"""
+    cand = [r for r in range(len(ls)) if len(ls[r]) > 4]
+    r = rng.choice(cand) if cand and rng.chance(5, 6) else rng.below(len(ls))
+    n = len(ls[r])
+    o = rng.range(1, max(1, n - 3)) if n > 2 else 0
+    prog = reach(r, o)
+    if rng.chance(1, 4) and n:
+        prog.append(['m', 0, rng.choice('fFtT'), rng.choice(ls[r])])        # ; and , have something to repeat
+    return prog
+
+
+def tail_prog(rng, text, ls):
+    t = rng.below(6)
+    if t < 2:
+        return [['m', rng.choice([0, 0, 1, 2]), rng.choice('jk')]]
+    if t == 2:
+        return [gen_motion(rng, text)]
+    if t == 3:          # two counts in a row
+        k2 = rng.choice(BIG_KEYS)
+        return [['m', gen_digits(rng, rng.choice(BIG_LENGTHS), rng.below(10)), k2] + ([rng.choice(ls[0]) if ls and ls[0] else 'q'] if k2 in 'fFtT' else [])]
+    return []
+
+
+def gen_bigcount(rng, quick):
+    out = []
+    for key in BIG_KEYS:
+        plan = []
+        for n in BIG_LENGTHS:
+            if n == 10 or not quick:
+                plan += [(n, d) for d in range(10)]
+            elif n == 9:
+                plan += [(n, None)] * 2
+            else:
+                plan += [(n, rng.below(10)) for _ in range(3)] + [(n, 0)]
+        for (n, d) in plan:
+            text = rng.choice(BIG_TEXTS) if rng.chance(3, 4) else gen_text(rng, 7)
+            ls = lines_of(text)
+            if not ls:
+                text = BIG_TEXTS[0]
+                ls = lines_of(text)
+            rows = rng.choice([24, 24, 6, 5, 4])
+            prog = start_prog(rng, ls)
+            if key in ';,' and not any(len(c) > 3 for c in prog):
+                line = ls[prog[0][1] - 1]
+                prog.append(['m', 0, rng.choice('fFtT'), rng.choice(line) if line else 'q'])
+            ref = ref_after(ls, rows, prog)
+            prog.append(counted(rng, ls, ref, key, gen_digits(rng, n, d)))
+            prog += tail_prog(rng, text, ls)
+            out.append({'text': text, 'rows': rows, 'prog': prog, 'stream': 'bigcount'})
+    # { } : moderate counts only (see above)
+    for key in '{}':
+        for n in (4, 5, 6, 6):
+            text = rng.choice(BIG_TEXTS)
+            ls = lines_of(text)
+            prog = start_prog(rng, ls) + [['m', gen_digits(rng, n), key]] + tail_prog(rng, text, ls)
+            out.append({'text': text, 'rows': rng.choice([24, 5]), 'prog': prog, 'stream': 'bigcount'})
+    return out
+
+
+def gen_count_edge(rng, quick):
+    out = []
+    for key in BIG_KEYS + ['{', '}']:
+        for _ in range(6 if quick else 40):
+            text = rng.choice(BIG_TEXTS) if rng.chance(3, 4) else gen_text(rng, 7)
+            ls = lines_of(text)
+            if not ls:
+                text = BIG_TEXTS[1]
+                ls = lines_of(text)
+            rows = rng.choice([24, 6, 5, 4])
+            prog = start_prog(rng, ls)
+            if key in ';,' and not any(len(c) > 3 for c in prog):
+                line = ls[prog[0][1] - 1]
+                prog.append(['m', 0, rng.choice('fFtT'), rng.choice(line) if line else 'q'])
+            ref = ref_after(ls, rows, prog)
+            n, ln = len(ls), len(ls[ref.r])
+            width = coltab(ls[ref.r] + '\n')[-1]
+            dist = [n - 1 - ref.r, ref.r, n, ln - 1 - ref.o, ref.o, ln, width, width + 1, ref.top + rows - 1 - ref.r, ref.r - ref.top + 1,
+                    rows - 1, 100, 10, 20]
+            d = rng.choice(dist) + rng.choice([-1, 0, 0, 1, 1, 2])
+            if d <= 0:
+                d = rng.choice([1, 10, 100, 101])
+            prog.append(counted(rng, ls, ref, key, d))
+            prog += tail_prog(rng, text, ls) if rng.chance(1, 2) else []
+            prog = [c for c in prog if c[0] == 'g' or c[2] not in '{}' or c[1] < 10 ** 6]
+            out.append({'text': text, 'rows': rows, 'prog': prog, 'stream': 'count-edge'})
+    return out
+
+
 FIXED_TEXTS = [
     'foo.bar  (a[1]) {x}\n\n  \tindentéd w中文 énd  \n\n\nlast_1 )\n',
     '\tab\tc((d))\n \nああ Ａb\n',
@@ -849,7 +997,7 @@ def check_case(exe, case, res):
 def run(ctx):
     res, rng = ctx.res, ctx.rng
     exe = vlib.build_vi()
-    model = ctx.model('vi')
+    model = ctx.model('mot')        # coq/Extract_mot.v (MotDefs + MotCountDefs) behind ocaml/drv_mot.ml
     res.rule = ('one case = (text, window rows, motion program); the marker position written by the real editor is compared with the '
                 'extracted model and with the Python reference; non-trivial = the reference cursor after the program differs from '
                 '(0,0) or the program contains a failing motion; distinct = distinct (text, rows, program)')
@@ -895,12 +1043,16 @@ def run(ctx):
         rs = rng.fork('sticky3')
         for i in range(160 if ctx.quick else 5000):
             cases += gen_sticky3(rs, 3 if ctx.quick else 0)
+        # counts of nine and more digits; counts next to the distance to the edge of the line / buffer / window
+        rb = rng.fork('bigcount')
+        cases += gen_bigcount(rb, ctx.quick)
+        cases += gen_count_edge(rb, ctx.quick)
     res.count('cases', len(cases))
     for c in cases:
         res.count('stream ' + c.get('stream', 'corpus' if 'corpus' in c else 'general'))
 
     obs = vlib.pmap(lambda c: check_case(exe, c, res), cases)
-    reqs = [model_req(c['text'], c['rows'], c['prog']) for c in cases]
+    reqs = [model_req(c['text'], c['rows'], c['prog'], c.get('stream') in ('bigcount', 'count-edge')) for c in cases]
     mout = None
     if model:
         # the model driver answers line by line: the requests are dealt round-robin to 16 processes
@@ -929,6 +1081,9 @@ def run(ctx):
             w = mout[i].split()
             if w[0] == 'fuel':
                 res.disagree({'what': 'model ran out of fuel', 'input': inp})
+            elif w[0] in ('undecided', 'keys'):
+                res.disagree({'what': 'model: ' + ('do_motion_z could not decide within its fuel' if w[0] == 'undecided' else
+                                                   'the typed keys are not exactly one motion command (digits left over / not consumed)'), 'input': inp})
             elif (int(w[0]), int(w[1])) != pos:
                 res.disagree({'what': 'model and implementation differ on the cursor', 'input': inp,
                               'implementation': list(pos), 'model': [int(w[0]), int(w[1])]})
